@@ -143,7 +143,8 @@ REASON_PROP["reading a properly closed file modified it"] = "C19"
 C03_REASONS = ["a stop between two complete writes left a file that does not open", "more signals than were defined",
                "a signal that was never defined appeared", "length query failed on a file that opened", "more samples than were submitted",
                "samples inside the reported length cannot be read", "first sample id differs from the one submitted",
-               "samples differ from the submitted prefix", "more than the block in flight was lost",
+               "samples differ from the submitted prefix", "statistics disagree with the samples of the prefix",
+               "more than the block in flight was lost",
                "a read call failed on a file that opened after a stop between two complete writes",
                "annotations are not an in-order selection of unaltered submitted ones",
                "UTC entries are not an in-order selection of unaltered submitted ones",
@@ -155,7 +156,8 @@ for _r in C03_REASONS:
 for _r in C19_REASONS:
     REASON_PROP[_r] = "C19"
 for _r in ("altered file reports a different signal length as valid", "altered file reports a different first sample id as valid",
-           "altered samples returned as valid", "altered source definitions returned as valid", "altered signal definitions returned as valid",
+           "altered samples returned as valid", "altered statistics returned as valid", "altered source definitions returned as valid",
+           "altered signal definitions returned as valid",
            "the open wrote to the altered file without changing it", "altered or incomplete annotations returned as valid",
            "altered or incomplete UTC entries returned as valid", "altered or incomplete user data returned as valid"):
     REASON_PROP[_r] = "C04"
